@@ -134,9 +134,6 @@ func (ld *Layerdefs) ProbeAllLayerstate(inuse fs.InUseLayerMap) error {
 		return err
 	}
 	for _, layer := range ld.Layers() {
-		if layer.State == Layerstate_error {
-			continue
-		}
 		name := layer.Name
 		buildroot := ld.buildPath(layer)
 		layer.Mounts = ld.mounts.GetMountAndSubmounts(buildroot)
@@ -157,6 +154,12 @@ func (ld *Layerdefs) ProbeAllLayerstate(inuse fs.InUseLayerMap) error {
 					}
 				}
 			}
+		}
+
+		// A layer whose definition could not be read stays in the error state, but what is
+		// mounted below it and who works in it has been recorded: it protects its parent
+		if layer.State == Layerstate_error {
+			continue
 		}
 
 		if !fs.IsDir(buildroot) {
